@@ -306,6 +306,20 @@ class Run:
                     out.append(("proxy-cap:new-url-on-reregistration", "register_proxy_cap(%s) twice in a row: %s then %s" % (name, url, url2)))
                     m.add(key, name, CapType.PROXY_ONLY, url2)
             self.nontrivial = True
+        elif k == "reseed":
+            # the region is announced again (teleport back, crossing, EstablishAgentCommunication) with a seed capability
+            _, s, r, same = op
+            key = (s, r)
+            region = self.region(s, r)
+            cur = m.by_name(key, "Seed")["url"]
+            url = cur if same else self.fresh_url(s, r) + "/seed"
+            got = w.sessions[s].register_region(circuit_addr=region.circuit_addr, seed_url=url, handle=region.handle)
+            if got is not region:
+                out.append(("reseed:new-region-object", "register_region for a known circuit address returned a different region"))
+            if not same:
+                m.add(key, "Seed", CapType.NORMAL, url)
+                self.nontrivial = True
+            self.count("reseed")
         elif k == "use_temporary":
             _, s, r, suffix = op
             key = (s, r)
@@ -340,6 +354,7 @@ OP = st.one_of(
               st.booleans(), st.integers(0, 9).map(lambda i: i == 0)),
     st.tuples(st.just("proxy"), st.integers(0, 1), st.integers(0, 1), st.sampled_from(PROXY_NAMES), st.booleans()),
     st.tuples(st.just("use_temporary"), st.integers(0, 1), st.integers(0, 1), st.sampled_from(["", "/x", "?a=b"])),
+    st.tuples(st.just("reseed"), st.integers(0, 1), st.integers(0, 1), st.integers(0, 3).map(lambda i: i == 0)),
     st.tuples(st.just("burst_temp"), st.integers(0, 1), st.integers(0, 1), st.sampled_from(["UploadBakedTexture", "NewFileAgentInventory"]),
               st.integers(2, 4), st.integers(0, 3), st.sampled_from(["", "/x"])),
 )
